@@ -340,6 +340,8 @@ pub fn streams() -> Vec<(&'static str, crate::StreamFn)> {
         ("rel-lossy-conv", rel_lossy_conv as crate::StreamFn),
         ("debversion", debversion as crate::StreamFn),
         // the same functions under the names the pre-fix model (RelLossy.old_*) is compared with
+        ("rel-lossy-oldnl", rel_lossy as crate::StreamFn),
+        ("rel-lossy-text-oldnl", rel_lossy_text as crate::StreamFn),
         ("rel-lossy-old", rel_lossy as crate::StreamFn),
         ("rel-lossy-text-old", rel_lossy_text as crate::StreamFn),
     ]
